@@ -85,6 +85,18 @@ Proof.
 Qed.
 Print Assumptions C18_manual_eq_iter.
 
+(* callback-driven paging (add_callbacks(handle_page, ...) with handle_page calling start_fetching_next_page()):
+   the handler is given every row exactly once, in order, and finishes -- whether the first page arrived before or
+   after the callbacks were registered -- with the same requests as iteration *)
+Theorem C18_async_eq_iter : forall early srv, nfails srv = O ->
+  let '(o, r, f) := async_pages early srv in
+  r = concat (pages srv) /\ f = true /\ reqs o = reqs (fst (iterate_retry srv)).
+Proof.
+  intros early srv Hn. pose proof (async_pages_spec early srv Hn) as A. destruct (async_pages early srv) as [[o r] f].
+  destruct A as (A1 & A2 & A3). destruct (iterate_retry_spec srv) as [_ R]. rewrite A1, A2, R, all_rows_concat. auto.
+Qed.
+Print Assumptions C18_async_eq_iter.
+
 (* ---- continuous paging (DSE_V1 and DSE_V2): one request; the pushed pages come out once, in order ---- *)
 Theorem C18_cont_iter : forall srv, snd (iterate_cont srv) = [Ret (VRows (concat (pages srv)))].
 Proof. intros srv. unfold iterate_cont, init_cont. destruct (init srv) as [s0 o0]. cbn. rewrite all_rows_concat. reflexivity. Qed.
